@@ -83,3 +83,54 @@ Proof.
     assert (E : (0 <? d') = true) by (apply Z.ltb_lt; lia). rewrite E. lia.
   - unfold zlen. lia.
 Qed.
+
+(* ---------- the same in the un-chunked continuous layout (single-block calls) ---------- *)
+From DRF Require Import Proofs.WriterInvU.
+
+Lemma loop_last_u c g vec : vcfg c -> c_chunk c = false -> c_cont c = true -> 0 <= g ->
+  forall fuel st sw, InvU c st -> 0 <= sw < zlen vec -> w_gi st <= g + sw ->
+  zlen vec - sw < Z.of_nat fuel ->
+  exists st',
+    write_loop fuel c st sw [(g, 0)] vec = (0, st') /\
+    w_cur st' = Some (Fk c (c_start c + w_gi st' - 1)).
+Proof.
+  intros Hc Hch Hco Hg0. induction fuel as [|fuel IH]; intros st sw HI Hsw Hgi Hfuel.
+  - cbn in Hfuel. lia.
+  - cbn [write_loop]. fold (zlen vec).
+    assert (El : (sw <? zlen vec) = true) by (apply Z.ltb_lt; lia). rewrite El.
+    destruct (step_u_rel c st g vec sw Hc Hch Hco HI Hsw Hgi Hg0)
+      as (st1 & Hstep & Hpos & HI1 & Hgi1 & _ & _).
+    set (K := c_start c + (g + sw)) in *.
+    set (stw := Z.min (whi c (Fk c K) - K) (zlen vec - sw)) in *.
+    pose proof (wstf_cur c st sw [(g, 0)] vec _ st1 Hstep) as Hcur1.
+    cbn [get_global_sample ggs_loop] in Hcur1.
+    replace (c_start c + (g + (sw - 0))) with K in Hcur1 by (unfold K; lia).
+    rewrite Hstep.
+    assert (E0 : (stw =? 0) = false) by (apply Z.eqb_neq; lia). rewrite E0.
+    assert (Hlast : w_cur st1 = Some (Fk c (c_start c + w_gi st1 - 1))).
+    { rewrite Hcur1. f_equal. symmetry. apply (Fk_same c K (c_start c + w_gi st1 - 1) Hc).
+      pose proof (Fk_window c K Hc). unfold stw in Hgi1 |- *. unfold K in *. lia. }
+    destruct (Z_lt_le_dec (sw + stw) (zlen vec)) as [Hlt|Hge].
+    + apply (IH st1 (sw + stw) HI1 ltac:(lia) ltac:(lia) ltac:(rewrite Nat2Z.inj_succ in Hfuel; lia)).
+    + assert (ET : sw + stw = zlen vec) by (unfold stw in *; lia). rewrite ET.
+      exists st1. split; [|exact Hlast].
+      destruct fuel as [|fuel']; cbn [write_loop]; fold (zlen vec);
+        rewrite ?(proj2 (Z.ltb_ge (zlen vec) (zlen vec)) ltac:(lia)); reflexivity.
+Qed.
+
+Theorem last_file_is_file_of_last_sample_u c st g vec :
+  vcfg c -> c_chunk c = false -> c_cont c = true -> InvU c st -> w_gi st <= g -> 0 <= g -> 0 < zlen vec ->
+  exists st', write_one c st g vec = (0, st') /\
+              w_cur st' = Some (Fk c (c_start c + w_gi st' - 1)).
+Proof.
+  intros Hc Hch Hco HI Hgi Hg Hlen. unfold write_one, write_blocks. rewrite (invu_nf c st HI).
+  assert (Eg : (g <? w_gi st) = false) by (apply Z.ltb_ge; lia). rewrite Eg.
+  rewrite andb_false_r.
+  apply (loop_last_u c g vec Hc Hch Hco Hg (S (length vec)) st 0 HI ltac:(lia) ltac:(lia)).
+  unfold zlen. lia.
+Qed.
+
+(* close keeps the name (get_last_file_written / get_last_dir_written stay available), the cursor
+   and the counters; it only finalizes the open file *)
+Lemma close_keeps_last st : w_cur (close_writer st) = w_cur st /\ w_gi (close_writer st) = w_gi st.
+Proof. split; reflexivity. Qed.
